@@ -16,6 +16,10 @@ from harness.refs import byteranges, ranges as rref
 
 LEVEL = "exploration"
 RULES = {
+    "huge": "enumerated: sparse files of 2 GiB + 8 MiB and 4 GiB + 7 bytes (thorough: up to 32 GiB) served by the ASGI response with the zero-copy extension, whole and with "
+    "15 range sets (slices just below / at / above 0x7ffff000 bytes, suffixes, two ranges with one slice over 2 GiB), GET and HEAD; the server model notes every "
+    "(offset, count) slice instead of reading it: in order they must be exactly the expected byte ranges, contiguous and complete, the literal bytes in between are "
+    "compared with the file, Content-Length equals the bytes sent, Content-Range names the range; non-trivial = an expected slice longer than 0x7ffff000 bytes",
     "_interfaces": "every case of every sub-check is answered by four server configurations and both methods (8 answers, all parsed and compared): WSGI, "
     "WSGI whose environ offers wsgi.file_wrapper (PEP 3333), ASGI, ASGI with the zero-copy send extension",
     "ifrange": "enumerated: every If-Range form (absent, ETag exact/unquoted/weak, near misses of the ETag: tag + suffix, tag lists, upper-case hex, truncated tag, "
@@ -527,7 +531,151 @@ def rewrite_cases():
                     yield {"ifaces": [first, second], "fracs": list(fracs), "size": size, "range": rng, "slice": list(sl), "second": k}
 
 
-SUBS = {"files": oracle, "grid": oracle, "ifrange": oracle, "request": oracle, "mtime": oracle, "forms": oracle, "rewrite": oracle_rewrite}
+
+# ---- files beyond 2 GiB (sparse), zero-copy -------------------------------------------------------------------------------------
+# A slice of more than 2 GiB cannot be read into memory by the server model; with the zero-copy extension on offer the file
+# data travels as (file, offset, count) and the model only notes the slices (gateways.ZC_SPARSE_LIMIT).  The file is sparse
+# (zeros) with position-identifying markers around the places where an implementation may cut a slice.
+HUGE_MARKS = (0, 4096, 0x7FFFF000 - 3, 0x7FFFF000 + 4096 - 3, 2**31 - 3, 2**32 - 3)
+_HUGE: dict = {}
+
+
+def huge_file(size: int):
+    global _DIR
+    if _DIR is None:
+        _DIR = tmpfiles.workdir("verif_c02_")
+    if size not in _HUGE:
+        path = os.path.join(_DIR, f"huge{size}.bin")
+        try:
+            with open(path, "wb") as fh:
+                fh.truncate(size)
+                for m in HUGE_MARKS + (size - 6,):
+                    if 0 <= m and m + 6 <= size:
+                        fh.seek(m)
+                        fh.write(b"<" + (m % 2**32).to_bytes(4, "big") + b">")
+        except OSError:
+            # a scratch file system without room for / support of a sparse file of this size: nothing can be said (labelled)
+            try:
+                os.unlink(path)
+            except OSError:
+                pass
+            path = None
+        _HUGE[size] = path
+    return _HUGE[size]
+
+
+def oracle_huge(case) -> Result:
+    r = Result()
+    size, rng, method = case["size"], case["range"], case["method"]
+    path = huge_file(size)
+    if path is None:
+        r.label("huge:file-system-cannot-hold-the-sparse-file(inconclusive)")
+        return r
+    specs = rref.parse_clean(rng) if rng else None
+    if rng and (specs is None or rref.verdicts(specs, size)):
+        raise core.HarnessError(f"huge: the range {rng!r} is not a clean satisfiable set")
+    expected = rref.runs_by_sweep(specs, size) if specs else [(0, size)]
+    rq = gw.areq(method=method, path="/f", headers=[["Range", rng]] if rng else [])
+    scope = gw.make_scope(rq)
+    scope["extensions"] = {"http.response.zerocopysend": {}}
+    kw = {"chunk_size": case["chunk"]} if case.get("chunk") else {}
+    old = gw.ZC_SPARSE_LIMIT
+    gw.ZC_SPARSE_LIMIT = 1 << 22
+    try:
+        run = gw.run_sync(gw.run_asgi(basgi.FileResponse(path, **kw), scope, ()))
+    finally:
+        gw.ZC_SPARSE_LIMIT = old
+    ctx = f"{method} asgi-zc size={size} Range={rng!r} chunk={case.get('chunk')}"
+    if run.exc is not None:
+        r.fail(f"C02:huge:raised:{type(run.exc).__name__}", f"{ctx}: {run.exc!r}")
+        return r
+    if run.errors:
+        r.fail(f"C02:huge:protocol:{run.errors[0][0]}", f"{ctx}: {run.errors[:3]!r}")
+    if not run.complete:
+        r.fail("C02:huge:incomplete", f"{ctx}: no final body event")
+    want_status = 206 if rng else 200
+    if run.status_code != want_status:
+        r.fail("C02:huge:status", f"{ctx}: status {run.status_code}, expected {want_status}")
+        return r
+    spans = {i: (pos, n, was_read) for i, pos, n, was_read in run.__dict__.get("zc_spans", [])}
+    # the body as a sequence of segments: literal bytes, or (position, length) of file data that was not read
+    segments = []
+    for i, chunk in enumerate(run.chunks):
+        if i in spans and not spans[i][2]:
+            segments.append(("span", spans[i][0], spans[i][1]))
+        elif i in spans:
+            segments.append(("data", spans[i][0], chunk))
+        elif chunk:
+            segments.append(("lit", None, chunk))
+    total = sum(s[2] if s[0] == "span" else len(s[2]) for s in segments)
+    cl = run.get("content-length")
+    if method == "HEAD":
+        if total:
+            r.fail("C02:huge:head-body", f"{ctx}: HEAD answered with {total} body bytes")
+    else:
+        if cl is None or not cl.isdigit() or int(cl) != total:
+            r.fail("C02:huge:content-length", f"{ctx}: Content-Length {cl!r} but {total} body bytes were sent (slices {[s[1:] for s in segments if s[0] == 'span']!r})")
+        # file data must be, in order, exactly the expected runs; literal bytes between two runs are part framing (multipart)
+        cursor = [list(x) for x in expected]  # [position, end) still to come
+        k = 0
+        fd = os.open(path, os.O_RDONLY)
+        try:
+            for kind, pos, val in segments:
+                if kind == "lit":
+                    if len(expected) == 1:
+                        # single answer: literal bytes are file data at the cursor
+                        if k >= len(cursor) or os.pread(fd, len(val), cursor[k][0]) != val or cursor[k][0] + len(val) > cursor[k][1]:
+                            r.fail("C02:huge:body", f"{ctx}: {len(val)} literal body bytes {val[:20]!r} are not the file content at position {cursor[k][0] if k < len(cursor) else None}")
+                            break
+                        cursor[k][0] += len(val)
+                        if cursor[k][0] == cursor[k][1]:
+                            k += 1
+                    continue
+                n = val if kind == "span" else len(val)
+                if k >= len(cursor):
+                    r.fail("C02:huge:body", f"{ctx}: file slice ({pos}, {n}) after the expected data {expected!r} was complete")
+                    break
+                if pos != cursor[k][0] or pos + n > cursor[k][1]:
+                    r.fail("C02:huge:body", f"{ctx}: file slice (offset {pos}, count {n}) where bytes [{cursor[k][0]}, {cursor[k][1]}) of the file were due; all slices {[s[1:] if s[0] == 'span' else (s[1], len(s[2])) for s in segments if s[0] != 'lit']!r}")
+                    break
+                if kind == "data" and os.pread(fd, n, pos) != val:
+                    r.fail("C02:huge:body", f"{ctx}: slice (offset {pos}, count {n}) delivered other bytes than the file holds there")
+                    break
+                cursor[k][0] += n
+                if cursor[k][0] == cursor[k][1]:
+                    k += 1
+            else:
+                if k != len(cursor):
+                    r.fail("C02:huge:body", f"{ctx}: file data ends at position {cursor[k][0]}, bytes up to {cursor[k][1]} (and {len(cursor) - k - 1} more ranges) are missing")
+        finally:
+            os.close(fd)
+    if len(expected) == 1 and rng:
+        cr = run.get("content-range")
+        if cr != f"bytes {expected[0][0]}-{expected[0][1] - 1}/{size}":
+            r.fail("C02:huge:content-range", f"{ctx}: Content-Range {cr!r}, expected 'bytes {expected[0][0]}-{expected[0][1] - 1}/{size}'")
+    longest = max(b - a for a, b in expected)
+    r.nontrivial = longest > 0x7FFFF000
+    r.label(f"huge:status={run.status_code}", f"huge:{method}", "huge:slice>2GiB" if longest > 0x7FFFF000 else "huge:slice<=2GiB", f"huge:ranges={len(expected)}")
+    r.key = (size, rng, method, case.get("chunk"))
+    return r
+
+
+def huge_cases(quick):
+    sizes = [2**31 + 8388608 + 5, 2**32 + 7] if quick else [2**31 - 4096, 2**31 + 8388608 + 5, 2**32 + 7, 2**33 + 1, 2**35]
+    for size in sizes:
+        rngs = [None, "bytes=0-", "bytes=4096-", "bytes=1-", f"bytes=-{0x7FFFF000 + 1}", f"bytes=-{size - 1}", f"bytes=4096-{4096 + 0x7FFFF000 - 1}", f"bytes=4096-{4096 + 0x7FFFF000}",
+                f"bytes=5-{size - 2}", f"bytes={size - 10}-", "bytes=0-9", f"bytes=0-9,4096-", f"bytes=0-{0x7FFFF000 + 100},{0x7FFFF000 + 200}-", f"bytes={2**31 - 1}-{2**31}", f"bytes={size - 1}-"]
+        for rng in rngs:
+            if rng is not None:
+                sp = rref.parse_clean(rng)
+                if sp is None or rref.verdicts(sp, size) or any(a is not None and b is not None and a > b for a, b in sp):
+                    continue  # not a satisfiable set for this size (e.g. a suffix longer than the smallest file)
+            for method in ("GET", "HEAD"):
+                for chunk in (None, 4096) if rng in (None, "bytes=4096-") else (None,):
+                    yield {"size": size, "range": rng, "method": method, "chunk": chunk}
+
+
+SUBS = {"files": oracle, "grid": oracle, "ifrange": oracle, "request": oracle, "mtime": oracle, "forms": oracle, "rewrite": oracle_rewrite, "huge": oracle_huge}
 
 # ------------------------------------------------------------------------------------------
 
@@ -759,6 +907,8 @@ def run(rec, only=None):
     rec.exhaustive["mtime"] = True
     core.drive_cases(rec, "forms", forms_cases(quick), oracle)
     core.drive_cases(rec, "rewrite", rewrite_cases(), oracle_rewrite)
+    core.drive_cases(rec, "huge", huge_cases(quick), oracle_huge)
+    rec.exhaustive["huge"] = True
     rec.exhaustive["rewrite"] = True
     rec.exhaustive["forms"] = True
     if not quick:
